@@ -872,8 +872,8 @@ def _gasclex_lines(case, res):
         return True
 
     out = [(f"gasclex cp={cps(text)}", Expect(same_toks, "real=" + repr(toks)[:600] + " " + end))]
-    if end == "BAD":
-        return out             # the eager composition is only meaningful when the lexer does not raise
+    # (when the lexer raises, `gasctext` runs the parser on the tokens before the failure and rejects iff the parser asked for more: the real
+    # parser pulls tokens on demand)
     if "exc" in res:
         return out + [(f"gasctext cp={cps(text)}", "error")] if res["exc"] == "ValueError" else out
 
@@ -889,7 +889,43 @@ def _gasclex_lines(case, res):
                 return False
         return True
 
-    return out + [(f"gasctext cp={cps(text)}", Expect(same_table, "impl=" + repr({k: res[k] for k in ("id", "pid", "type")})[:600]))]
+    return out + [(f"gasctext cp={cps(text)}", Expect(same_table, "impl=" + repr({k: res[k] for k in ("id", "pid", "type")})[:600]))] + _bad_tail_lines(case)
+
+
+BAD_TAILS = [" ( 1abc", " 1abc", " ; c\n ) 2.5.1 ("]   # a word `RE_FLOAT` matches and `float()` rejects, behind / at the parser's last look-ahead
+
+
+def _bad_tail_lines(case):
+    """derived inputs (computed here with the real library): the document followed by a word on which the lexer raises — the real parser pulls
+    tokens on demand, so the failure only matters when the parser reaches it; the generated lexer + parser + walk must agree"""
+    from swcgeom.transforms import NeurolucidaAscToSwc
+
+    text = case["text"]
+    if "via" in case and case.get("via") != "stream" or len(text) > 600:
+        return []
+    out = []
+    for tail in BAD_TAILS:
+        t2 = text + tail
+        try:
+            r2 = table_of(NeurolucidaAscToSwc.from_stream(io.StringIO(t2)))
+        except ValueError:
+            out.append((f"gasctext cp={cps(t2)}", "error"))
+            continue
+
+        def same(got, r2=r2):
+            head, *rows = got.split(" | ")
+            if head != f"ok {r2['n']}" or len(rows) != r2["n"]:
+                return False
+            for k, r in enumerate(rows):
+                f = r.split()
+                if int(f[0]) != r2["id"][k] or int(f[1]) != r2["type"][k] or int(f[6]) != r2["pid"][k]:
+                    return False
+                if [float(np.float32(float(sci_value(v)))) for v in f[2:6]] != r2["xyzr"][k]:
+                    return False
+            return True
+
+        out.append((f"gasctext cp={cps(t2)}", Expect(same, "impl=" + repr({k: r2[k] for k in ("id", "pid", "type")})[:600])))
+    return out
 
 
 def _gasc_lines(case, res):
